@@ -70,6 +70,11 @@ func realMenu() []realRule {
 			Expect: map[string]string{}},
 		{Name: "condition-does-not-compile", Execute: []config.MechanismConfig{anonStep, {"finalizer": "hdr", "if": "Request.Method =="}}, Valid: false},
 		{Name: "condition-not-boolean", Execute: []config.MechanismConfig{anonStep, {"finalizer": "hdr", "if": `"abc"`}}, Valid: false},
+		// not boolean either, but only known when it is evaluated (the subject is of no static type)
+		{Name: "condition-of-no-static-type-not-boolean", Execute: []config.MechanismConfig{anonStep, {"finalizer": "hdr", "if": "Subject.ID"}}, Valid: false},
+		{Name: "authorizer-expression-of-no-static-type-not-boolean", Execute: []config.MechanismConfig{anonStep, {"authorizer": "cel1", "config": map[string]any{
+			"expressions": []any{map[string]any{"expression": "Outputs.userinfo"}},
+		}}}, Valid: false},
 		{Name: "condition-does-not-compile-on-authorizer", Execute: []config.MechanismConfig{anonStep, {"authorizer": "cel1", "if": "Request.Method =="}},
 			Valid: false},
 		{Name: "authorizer-expression-does-not-compile", Execute: []config.MechanismConfig{anonStep, {"authorizer": "cel1", "config": map[string]any{
